@@ -14,7 +14,7 @@ import (
 
 func init() {
 	Register(&World{Name: "merge", Props: []string{"C12"}, Concurrent: true, MaxSteps: 6000, Run: mergeWorld})
-	ExpectedProbes["merge"] = []string{"chans-arity-0", "chans-arity-1", "chans-arity-2", "chans-arity-3", "chans-arity-many", "input-closed-immediately", "replicate-0-dsts", "replicate-many-dsts", "stream-merge-error", "stream-merge-close-early", "stream-merge-zero-inputs", "stream-merge-end"}
+	ExpectedProbes["merge"] = []string{"chans-arity-0", "chans-arity-1", "chans-arity-2", "chans-arity-3", "chans-arity-many", "input-closed-immediately", "replicate-0-dsts", "replicate-many-dsts", "stream-merge-error", "stream-merge-close-early", "stream-merge-zero-inputs", "stream-merge-end", "stream-merge-next-ctx-expired"}
 }
 
 func mergeWorld(r *R) {
@@ -270,9 +270,26 @@ func streamMergeScenario(r *R) {
 				break
 			}
 			Spin(r.Choose(2, "cpace"), "consumer-pace")
-			c := cs.Begin("consumer", "Next", k, root)
-			v, err := m.Next(root.C)
+			ctx := root
+			switch r.Choose(8, "nextctx") {
+			case 6:
+				ctx = NewDeadlineCtx(root, fmt.Sprintf("next%d", k), time.Duration(1+r.Choose(6, "ctx-d"))*5*time.Millisecond)
+				r.Fault("ctx_deadline")
+			case 7:
+				ctx = PreCancelled(root, fmt.Sprintf("next%d", k))
+				r.Fault("ctx_precancelled")
+			}
+			c := cs.Begin("consumer", "Next", k, ctx)
+			v, err := m.Next(ctx.C)
 			cs.End(c, v, err == nil, err)
+			if err != nil && ctx != root && isCtxErr(err) && ctx.Dead() && err == ctx.C.Err() {
+				// this call's own context ended: nothing is lost, the consumer either goes on or gives up
+				r.Probe("stream-merge-next-ctx-expired")
+				if k > 3*total+12 || r.Choose(3, "after-ctx-error") == 2 {
+					break
+				}
+				continue
+			}
 			if err == nil {
 				i, j := v/100, v%100
 				if i < 0 || i >= arity || j >= len(srcs[i].Items) {
@@ -340,6 +357,10 @@ func streamMergeScenario(r *R) {
 		if len(pend) > 0 && pend[0].Kind == "Next" && inputStuck {
 			// release the blocked inputs by closing from the harness side is not possible without the
 			// library's cooperation; end the run here (the consumer legitimately waits for a blocked input)
+			return
+		}
+		if len(pend) > 0 && pend[0].Kind == "Close" {
+			r.Violate("C12", "stream-merge/stuck/Close", "Close of the merged stream never returns: %v", sim.TaskStates())
 			return
 		}
 		sig := "stream-merge/stuck/Next"
